@@ -174,6 +174,30 @@ def _init_worker_noint():
     quiet_amoco()
 
 
+class TimeLimit(Exception):
+    pass
+
+
+class time_limit(object):
+    """with time_limit(s): ... raises TimeLimit inside a worker's main thread after s seconds (repeating alarm, so a
+    bare 'except:' in the code under test cannot swallow it for good)"""
+    def __init__(self, seconds):
+        self.seconds = seconds
+
+    def _handler(self, signum, frame):
+        raise TimeLimit()
+
+    def __enter__(self):
+        self.old = signal.signal(signal.SIGALRM, self._handler)
+        signal.setitimer(signal.ITIMER_REAL, self.seconds, 1.0)
+        return self
+
+    def __exit__(self, *a):
+        signal.setitimer(signal.ITIMER_REAL, 0)
+        signal.signal(signal.SIGALRM, self.old)
+        return False
+
+
 def shards(n, k):
     """k index shards of range(n): shard i = indices == i mod k."""
     return [(i, k, n) for i in range(k)]
